@@ -20,15 +20,7 @@ def runScript : P RunScript := do
   let r ← bool
   pure { acts := acts, raises := r }
 
-inductive AOp where
-  | sched (sp : RawSpec) (runs : List RunScript)
-  | run (limit : Int) (fuel : Nat)
-  | del (k : Nat)
-  | delTags (q : List Nat) (any : Bool)
-  | get (q : List Nat) (any : Bool)
-  | jobs
-
-def aop : P AOp := do
+def aopP : P AOp := do
   let t ← tok
   match t with
   | "asch" => do let sp ← rawSpec; let runs ← listOf runScript; pure (.sched sp runs)
@@ -50,18 +42,9 @@ def phaseCode : Phase → String
 def showATask (s : AState) (t : ATask) : String :=
   s!"{t.key} {t.job.due.inst} {b01 t.job.due.aware} {t.job.attempts} {t.job.failed} {b01 t.job.hasAttempts} {b01 (s.reg.contains t.key)}"
 
-def astepOp (s : AState) (o : AOp) : AState × Res :=
-  match o with
-  | .sched sp runs => s.schedule sp runs
-  | .run limit fuel => (runUntil fuel s limit, .unit)
-  | .del k => let (s', ok) := s.deleteJob k none; (s', if ok then .unit else .err .schedulerError)
-  | .delTags q any => let (s', n) := s.deleteJobs q any none; (s', .count n)
-  | .get q any => (s, .set (sortKeys (s.selectKeys q any)))
-  | .jobs => (s, .set (sortKeys s.reg))
-
 /-- answer line; the event log is flushed with every answer -/
 def ahandle (s : AState) (toks : List String) : AState × String :=
-  match runP aop toks with
+  match runP aopP toks with
   | none => (s, "bad-op")
   | some o =>
       let (s1, r) := astepOp { s with log := [] } o
